@@ -156,7 +156,7 @@ def handle (line : String) : String :=
       let o := sniffTcp script
       let (rel, en) := relayBytes o d
       let intact := rel == clientBytes script && en == clientEnd script
-      s!"res={tcpResStr o.buf o.result} nm={boolStr (o.needMoreSeen && !o.result.toBool)} buf={o.buf.length} armed=0 relay={hx rel} end={optErr en} intact={boolStr intact} # derr={optErr o.dataError}"
+      s!"res={tcpResStr o.buf o.result} armed=0 relay={hx rel} end={optErr en} intact={boolStr intact} # nm={boolStr (o.needMoreSeen && !o.result.toBool)} buf={o.buf.length} derr={optErr o.dataError}"
     | _, _ => "bad-op"
   | ["frames", offs, h] =>
     match parseBlocks offs, unhx h with
